@@ -7,8 +7,11 @@
 (*   sub j  : the caller of solve_low_level for job j:                     *)
 (*            executor.submit(future) ; future.result()                    *)
 (*   wrk j  : the thread created by PopenFuture.start (function run())     *)
-(*   shut   : the caller of executor.shutdown(wait = mode)                 *)
-(*   can j  : the ThreadPoolExecutor task f.cancel of shutdown(wait=False) *)
+(*   shut s : a caller of executor.shutdown(wait = mode[s]); s in {s1, s2}: *)
+(*            halmos requests shutdown from early-exit callbacks AND from  *)
+(*            ExecutorRegistry.shutdown_all() at exit, possibly while a    *)
+(*            shutdown(wait=True) is still joining                         *)
+(*   can s j: the ThreadPoolExecutor task f.cancel of shut s (wait=False)  *)
 (*   env j  : the operating system: the child process of job j exits       *)
 (*                                                                         *)
 (* Synchronisation point = operation at which the replay scheduler         *)
@@ -47,15 +50,18 @@ CONSTANTS
     PopenMayFail,  \* jobs whose Popen() may raise OSError
     PreFix,        \* TRUE: the order of the code BEFORE commit 929919f (negative control only)
     CoarseCancel,  \* TRUE: the psutil part of cancel() (Process .. stream close) is ONE step (3-job configuration)
-    Modes          \* subset of {"none", "nowait", "wait"}: shutdown call made by thread shut
+    Modes,         \* subset of {"none", "nowait", "wait"}: shutdown call made by thread shut s1
+    Modes2,        \* the same for the second caller, thread shut s2
+    NeverExits     \* jobs whose process never exits on its own (only a signal ends it)
 
 ASSUME /\ HasTimeout \subseteq Jobs /\ IgnoresTerm \subseteq Jobs /\ PopenMayFail \subseteq Jobs
        /\ Modes \subseteq {"none", "nowait", "wait"} /\ Modes # {} /\ CoarseCancel \in BOOLEAN /\ PreFix \in BOOLEAN
+       /\ Modes2 \subseteq {"none", "nowait", "wait"} /\ Modes2 # {} /\ NeverExits \subseteq Jobs
 
 VARIABLES
-    mode,       \* which shutdown call thread shut makes (fixed in Init)
+    mode,       \* mode[s]: which shutdown call thread shut s makes (fixed in Init)
     flag,       \* PopenExecutor._shutdown (threading.Event)
-    lock,       \* PopenExecutor._lock: <<"free">>, <<"sub", j>>, <<"shut">>
+    lock,       \* PopenExecutor._lock: <<"free">>, <<"sub", j>>, <<"shut", s>>
     futures,    \* PopenExecutor._futures (sequence of jobs)
     spc,        \* pc of sub j
     wpc,        \* pc of wrk j
@@ -63,15 +69,15 @@ VARIABLES
     exc,        \* PopenFuture._exception: "none", "timeout", "oserror"
     delivered,  \* number of completed Future.set_result calls
     seen,       \* what future.result() gave to sub j: "none" (not yet), "tuple", "timeout", "oserror"
-    hpc,        \* pc of shut
-    snap, hidx, \* _join(): list(self._futures) and loop index
-    cpc,        \* pc of a cancel() invocation: cpc[<<"w", j>>] inline in wrk j, cpc[<<"h", j>>] = thread can j
+    hpc,        \* hpc[s]: pc of shut s
+    snap, hidx, \* snap[s], hidx[s]: _join() of shut s: list(self._futures) and loop index
+    cpc,        \* pc of a cancel() invocation: cpc[<<"w", j>>] inline in wrk j, cpc[<<s, j>>] = thread can s j
     late,       \* history: flag was already set when j was appended      (submit-shutdown-toctou)
     postret,    \* history: shutdown had already returned when j was appended
     sclosed,    \* the pipes of j's Popen object were closed by can j (cancel() of shutdown) -- possibly
                 \* under the feet of the worker's communicate()
     early,      \* history: can j found self.process = None while wrk j had not reached Popen (cancel-before-popen)
-    act         \* label of the last action [k |-> thread kind, j |-> job or "-", a |-> action name]
+    act         \* label of the last action [k |-> thread kind, j |-> job | shut | <<shut, job>>, a |-> action name]
 
 vars == <<mode, flag, lock, futures, spc, wpc, proc, exc, delivered, seen, hpc, snap, hidx, cpc,
           late, postret, early, sclosed, act>>
@@ -83,9 +89,11 @@ View == <<mode, flag, lock, futures, spc, wpc, proc, exc, delivered, seen, hpc, 
 JobSymmetry == Permutations(Jobs)
 
 Free == <<"free">>
-Sites == {"w", "h"}
+Shuts == {"s1", "s2"}
+ModesOf(s) == IF s = "s1" THEN Modes ELSE Modes2
+Sites == {"w"} \cup Shuts
 L(k, j, a) == [k |-> k, j |-> j, a |-> a]
-SiteKind(s) == IF s = "w" THEN "wrk" ELSE "can"
+SiteLabel(s, j, a) == IF s = "w" THEN L("wrk", j, a) ELSE L("can", <<s, j>>, a)
 Range(f) == {f[i] : i \in DOMAIN f}
 
 SubPcs == {"idle", "locked", "checked", "rejecting", "rejected", "started", "waiting", "got"}
@@ -94,26 +102,28 @@ CanPcs == {"none", "begin", "poll", "ps", "term", "wait", "kill", "close", "done
 ShutPcs == {"idle", "flagged", "locked", "waitcancels", "unlock", "snapshot", "joining", "returned", "raised"}
 
 TypeOK ==
-    /\ mode \in Modes /\ flag \in BOOLEAN
-    /\ lock \in {Free, <<"shut">>} \cup {<<"sub", j>> : j \in Jobs}
+    /\ mode \in [Shuts -> {"none", "nowait", "wait"}] /\ \A s \in Shuts : mode[s] \in ModesOf(s)
+    /\ flag \in BOOLEAN
+    /\ lock \in {Free} \cup {<<"shut", s>> : s \in Shuts} \cup {<<"sub", j>> : j \in Jobs}
     /\ futures \in Seq(Jobs) /\ Len(futures) <= Cardinality(Jobs)
     /\ spc \in [Jobs -> SubPcs] /\ wpc \in [Jobs -> WrkPcs]
     /\ proc \in [Jobs -> {"none", "running", "exited", "killed"}]
     /\ exc \in [Jobs -> {"none", "timeout", "oserror"}]
     /\ delivered \in [Jobs -> 0..2]
     /\ seen \in [Jobs -> {"none", "tuple", "timeout", "oserror"}]
-    /\ hpc \in ShutPcs /\ snap \in Seq(Jobs) /\ hidx \in 0..(Cardinality(Jobs) + 1)
+    /\ hpc \in [Shuts -> ShutPcs] /\ snap \in [Shuts -> Seq(Jobs)]
+    /\ hidx \in [Shuts -> 0..(Cardinality(Jobs) + 1)]
     /\ cpc \in [Sites \X Jobs -> CanPcs]
     /\ late \in [Jobs -> BOOLEAN] /\ postret \in [Jobs -> BOOLEAN] /\ early \in [Jobs -> BOOLEAN]
     /\ sclosed \in [Jobs -> BOOLEAN]
 
 Init ==
-    /\ mode \in Modes
+    /\ mode \in {m \in [Shuts -> {"none", "nowait", "wait"}] : \A s \in Shuts : m[s] \in ModesOf(s)}
     /\ flag = FALSE /\ lock = Free /\ futures = <<>>
     /\ spc = [j \in Jobs |-> "idle"] /\ wpc = [j \in Jobs |-> "idle"]
     /\ proc = [j \in Jobs |-> "none"] /\ exc = [j \in Jobs |-> "none"]
     /\ delivered = [j \in Jobs |-> 0] /\ seen = [j \in Jobs |-> "none"]
-    /\ hpc = "idle" /\ snap = <<>> /\ hidx = 0
+    /\ hpc = [s \in Shuts |-> "idle"] /\ snap = [s \in Shuts |-> <<>>] /\ hidx = [s \in Shuts |-> 0]
     /\ cpc = [x \in Sites \X Jobs |-> "none"]
     /\ late = [j \in Jobs |-> FALSE] /\ postret = [j \in Jobs |-> FALSE] /\ early = [j \in Jobs |-> FALSE]
     /\ sclosed = [j \in Jobs |-> FALSE]
@@ -154,7 +164,7 @@ S_AppendStart(j) ==
     /\ wpc' = [wpc EXCEPT ![j] = "spawned"]
     /\ spc' = [spc EXCEPT ![j] = "started"]
     /\ late' = [late EXCEPT ![j] = flag]
-    /\ postret' = [postret EXCEPT ![j] = hpc \in {"returned", "raised"}]
+    /\ postret' = [postret EXCEPT ![j] = \E s \in Shuts : hpc[s] \in {"returned", "raised"}]
     /\ act' = L("sub", j, "S_AppendStart")
     /\ UNCHANGED <<mode, flag, lock, proc, exc, delivered, seen, hpc, snap, hidx, cpc, early, sclosed>>
 
@@ -178,7 +188,7 @@ R_Result(j) ==
 SubNext(j) == S_Lock(j) \/ S_Check(j) \/ S_Reject(j) \/ S_AppendStart(j) \/ S_Unlock(j) \/ R_Result(j)
 
 -----------------------------------------------------------------------------
-(* cancel(): shared by wrk j (site "w", inline in `finally`) and can j (site "h")                     *)
+(* cancel(): shared by wrk j (site "w", inline in `finally`) and can s j (site s = the shutdown caller) *)
 
 Goto(s, j, p) == cpc' = [cpc EXCEPT ![<<s, j>>] = p] /\ UNCHANGED wpc
 Finish(s, j) ==
@@ -186,43 +196,43 @@ Finish(s, j) ==
     /\ wpc' = IF s = "w" THEN [wpc EXCEPT ![j] = "setresult"] ELSE wpc
 
 \* start of the pool task: `self.process and ...` -- no process object yet => is_running() is falsy => return
-C_Begin(j) ==
-    /\ cpc[<<"h", j>>] = "begin"
+C_Begin(s, j) ==
+    /\ cpc[<<s, j>>] = "begin"
     /\ IF proc[j] = "none"
-         THEN /\ Finish("h", j)
-              /\ early' = [early EXCEPT ![j] = (wpc[j] = "spawned")]
-         ELSE /\ Goto("h", j, "poll")
+         THEN /\ Finish(s, j)
+              /\ early' = [early EXCEPT ![j] = @ \/ (wpc[j] = "spawned")]
+         ELSE /\ Goto(s, j, "poll")
               /\ UNCHANGED early
-    /\ act' = L("can", j, "C_Begin")
+    /\ act' = SiteLabel(s, j, "C_Begin")
     /\ UNCHANGED <<mode, flag, lock, futures, spc, proc, exc, delivered, seen, hpc, snap, hidx, late, postret, sclosed>>
 
 \* `self.process.poll() is None` of the pool task
 \* (CoarseCancel: the steps ps .. close, which touch only proc[j] and the pipes of j, are taken at once; their
 \*  interleavings with the other threads of the same job are explored by the 1- and 2-job configurations)
-C_IsRunning(j) ==
-    /\ cpc[<<"h", j>>] = "poll"
+C_IsRunning(s, j) ==
+    /\ cpc[<<s, j>>] = "poll"
     /\ IF proc[j] = "running"
          THEN IF CoarseCancel
-                THEN /\ Finish("h", j)
+                THEN /\ Finish(s, j)
                      /\ proc' = [proc EXCEPT ![j] = "killed"]
                      /\ sclosed' = [sclosed EXCEPT ![j] = TRUE]
-                ELSE Goto("h", j, "ps") /\ UNCHANGED <<proc, sclosed>>
-         ELSE Finish("h", j) /\ UNCHANGED <<proc, sclosed>>
-    /\ act' = L("can", j, "C_IsRunning")
+                ELSE Goto(s, j, "ps") /\ UNCHANGED <<proc, sclosed>>
+         ELSE Finish(s, j) /\ UNCHANGED <<proc, sclosed>>
+    /\ act' = SiteLabel(s, j, "C_IsRunning")
     /\ UNCHANGED <<mode, flag, lock, futures, spc, exc, delivered, seen, hpc, snap, hidx, late, postret, early>>
 
 \* `psutil.Process(pid)` + `children(recursive=True)`
 C_PsProcess(s, j) ==
     /\ cpc[<<s, j>>] = "ps"
     /\ Goto(s, j, "term")
-    /\ act' = L(SiteKind(s), j, "C_PsProcess")
+    /\ act' = SiteLabel(s, j, "C_PsProcess")
     /\ UNCHANGED <<mode, flag, lock, futures, spc, proc, exc, delivered, seen, hpc, snap, hidx, late, postret, early, sclosed>>
 
 \* psutil.NoSuchProcess (process died and was reaped meanwhile): skip to the stream clean-up
 C_PsGone(s, j) ==
     /\ cpc[<<s, j>>] = "ps" /\ proc[j] # "running"
     /\ Goto(s, j, "close")
-    /\ act' = L(SiteKind(s), j, "C_PsGone")
+    /\ act' = SiteLabel(s, j, "C_PsGone")
     /\ UNCHANGED <<mode, flag, lock, futures, spc, proc, exc, delivered, seen, hpc, snap, hidx, late, postret, early, sclosed>>
 
 \* `for process in processes: process.terminate()`
@@ -230,14 +240,14 @@ C_Terminate(s, j) ==
     /\ cpc[<<s, j>>] = "term"
     /\ proc' = IF proc[j] = "running" /\ j \notin IgnoresTerm THEN [proc EXCEPT ![j] = "killed"] ELSE proc
     /\ Goto(s, j, "wait")
-    /\ act' = L(SiteKind(s), j, "C_Terminate")
+    /\ act' = SiteLabel(s, j, "C_Terminate")
     /\ UNCHANGED <<mode, flag, lock, futures, spc, exc, delivered, seen, hpc, snap, hidx, late, postret, early, sclosed>>
 
 \* `parent_process.wait(timeout=0.5)`: returns when the process is gone or after the grace period
 C_Wait(s, j) ==
     /\ cpc[<<s, j>>] = "wait"
     /\ Goto(s, j, "kill")
-    /\ act' = L(SiteKind(s), j, "C_Wait")
+    /\ act' = SiteLabel(s, j, "C_Wait")
     /\ UNCHANGED <<mode, flag, lock, futures, spc, proc, exc, delivered, seen, hpc, snap, hidx, late, postret, early, sclosed>>
 
 \* `if process.is_running(): process.kill()`
@@ -245,21 +255,21 @@ C_Kill(s, j) ==
     /\ cpc[<<s, j>>] = "kill"
     /\ proc' = IF proc[j] = "running" THEN [proc EXCEPT ![j] = "killed"] ELSE proc
     /\ Goto(s, j, "close")
-    /\ act' = L(SiteKind(s), j, "C_Kill")
+    /\ act' = SiteLabel(s, j, "C_Kill")
     /\ UNCHANGED <<mode, flag, lock, futures, spc, exc, delivered, seen, hpc, snap, hidx, late, postret, early, sclosed>>
 
 \* closing stdout/stderr/stdin of the Popen object; cancel() returns
 C_Close(s, j) ==
     /\ cpc[<<s, j>>] = "close"
     /\ Finish(s, j)
-    /\ sclosed' = IF s = "h" THEN [sclosed EXCEPT ![j] = TRUE] ELSE sclosed
-    /\ act' = L(SiteKind(s), j, "C_Close")
+    /\ sclosed' = IF s # "w" THEN [sclosed EXCEPT ![j] = TRUE] ELSE sclosed
+    /\ act' = SiteLabel(s, j, "C_Close")
     /\ UNCHANGED <<mode, flag, lock, futures, spc, proc, exc, delivered, seen, hpc, snap, hidx, late, postret, early>>
 
 CancelSteps(s, j) ==
     C_PsProcess(s, j) \/ C_PsGone(s, j) \/ C_Terminate(s, j) \/ C_Wait(s, j) \/ C_Kill(s, j) \/ C_Close(s, j)
 
-CanNext(j) == C_Begin(j) \/ C_IsRunning(j) \/ CancelSteps("h", j)
+CanNext(s, j) == C_Begin(s, j) \/ C_IsRunning(s, j) \/ CancelSteps(s, j)
 
 -----------------------------------------------------------------------------
 (* wrk j : run() of PopenFuture.start                                                                *)
@@ -336,77 +346,80 @@ WrkNext(j) ==
     \/ (wpc[j] = "cancelling" /\ CancelSteps("w", j))
 
 -----------------------------------------------------------------------------
-(* shut : shutdown(wait = (mode = "wait"))                                                            *)
+(* shut s : shutdown(wait = (mode[s] = "wait"))                                                       *)
 
-\* `self._shutdown.set()`
-H_SetFlag ==
-    /\ hpc = "idle" /\ mode # "none"
+HGo(s, p) == hpc' = [hpc EXCEPT ![s] = p]
+
+\* `self._shutdown.set()`  (idempotent: a later caller sets it again and goes on with its own work)
+H_SetFlag(s) ==
+    /\ hpc[s] = "idle" /\ mode[s] # "none"
     /\ flag' = TRUE
-    /\ hpc' = IF PreFix /\ mode = "wait" THEN "snapshot" ELSE "flagged"
-    /\ act' = L("shut", "-", "H_SetFlag")
+    /\ HGo(s, IF PreFix /\ mode[s] = "wait" THEN "snapshot" ELSE "flagged")
+    /\ act' = L("shut", s, "H_SetFlag")
     /\ UNCHANGED <<mode, lock, futures, spc, wpc, proc, exc, delivered, seen, snap, hidx, cpc, late, postret, early, sclosed>>
 
 \* wait=False: `with self._lock, ThreadPoolExecutor() as executor:` (acquire)
 \* wait=True : `with self._lock:` of _join() (acquire)
-H_Lock ==
-    /\ hpc = "flagged" /\ lock = Free
-    /\ lock' = <<"shut">>
-    /\ hpc' = "locked"
-    /\ act' = L("shut", "-", "H_Lock")
+H_Lock(s) ==
+    /\ hpc[s] = "flagged" /\ lock = Free
+    /\ lock' = <<"shut", s>>
+    /\ HGo(s, "locked")
+    /\ act' = L("shut", s, "H_Lock")
     /\ UNCHANGED <<mode, flag, futures, spc, wpc, proc, exc, delivered, seen, snap, hidx, cpc, late, postret, early, sclosed>>
 
-\* `cancel_tasks = [executor.submit(f.cancel) for f in self._futures]`: one thread can j per registered job
-H_CancelAll ==
-    /\ hpc = "locked" /\ mode = "nowait"
-    /\ cpc' = [x \in Sites \X Jobs |-> IF x[1] = "h" /\ x[2] \in Range(futures) THEN "begin" ELSE cpc[x]]
-    /\ hpc' = "waitcancels"
-    /\ act' = L("shut", "-", "H_CancelAll")
+\* `cancel_tasks = [executor.submit(f.cancel) for f in self._futures]`: one thread can s j per registered job
+H_CancelAll(s) ==
+    /\ hpc[s] = "locked" /\ mode[s] = "nowait"
+    /\ cpc' = [x \in Sites \X Jobs |-> IF x[1] = s /\ x[2] \in Range(futures) THEN "begin" ELSE cpc[x]]
+    /\ HGo(s, "waitcancels")
+    /\ act' = L("shut", s, "H_CancelAll")
     /\ UNCHANGED <<mode, flag, lock, futures, spc, wpc, proc, exc, delivered, seen, snap, hidx, late, postret, early, sclosed>>
 
 \* `concurrent.futures.wait(cancel_tasks)` (and the pool's own shutdown(wait=True))
-H_WaitCancels ==
-    /\ hpc = "waitcancels"
-    /\ \A j \in Jobs : cpc[<<"h", j>>] \in {"none", "done"}
-    /\ hpc' = "unlock"
-    /\ act' = L("shut", "-", "H_WaitCancels")
+H_WaitCancels(s) ==
+    /\ hpc[s] = "waitcancels"
+    /\ \A j \in Jobs : cpc[<<s, j>>] \in {"none", "done"}
+    /\ HGo(s, "unlock")
+    /\ act' = L("shut", s, "H_WaitCancels")
     /\ UNCHANGED <<mode, flag, lock, futures, spc, wpc, proc, exc, delivered, seen, snap, hidx, cpc, late, postret, early, sclosed>>
 
 \* wait=True: `futures = list(self._futures)` in _join(), under the lock
 \* (PreFix: read WITHOUT the lock, directly after the flag was set)
-H_Snapshot ==
-    /\ hpc = (IF PreFix THEN "snapshot" ELSE "locked") /\ mode = "wait"
-    /\ snap' = futures /\ hidx' = 1
-    /\ hpc' = IF PreFix THEN (IF futures = <<>> THEN "returned" ELSE "joining") ELSE "unlock"
-    /\ act' = L("shut", "-", "H_Snapshot")
+H_Snapshot(s) ==
+    /\ hpc[s] = (IF PreFix THEN "snapshot" ELSE "locked") /\ mode[s] = "wait"
+    /\ snap' = [snap EXCEPT ![s] = futures] /\ hidx' = [hidx EXCEPT ![s] = 1]
+    /\ HGo(s, IF PreFix THEN (IF futures = <<>> THEN "returned" ELSE "joining") ELSE "unlock")
+    /\ act' = L("shut", s, "H_Snapshot")
     /\ UNCHANGED <<mode, flag, lock, futures, spc, wpc, proc, exc, delivered, seen, cpc, late, postret, early, sclosed>>
 
 \* release of the lock; wait=False: shutdown returns; wait=True: _join() starts waiting (or returns at once)
-H_Unlock ==
-    /\ hpc = "unlock"
+H_Unlock(s) ==
+    /\ hpc[s] = "unlock"
     /\ lock' = Free
-    /\ hpc' = IF mode = "nowait" \/ snap = <<>> THEN "returned" ELSE "joining"
-    /\ act' = L("shut", "-", "H_Unlock")
+    /\ HGo(s, IF mode[s] = "nowait" \/ snap[s] = <<>> THEN "returned" ELSE "joining")
+    /\ act' = L("shut", s, "H_Unlock")
     /\ UNCHANGED <<mode, flag, futures, spc, wpc, proc, exc, delivered, seen, snap, hidx, cpc, late, postret, early, sclosed>>
 
 \* `future.result()` of the hidx-th snapshot entry; a stored exception is re-raised and leaves shutdown()
 \* (only CancelledError is suppressed), the remaining futures are then NOT waited for.
-H_Join ==
-    /\ hpc = "joining" /\ delivered[snap[hidx]] >= 1
-    /\ IF exc[snap[hidx]] # "none"
-         THEN hpc' = "raised" /\ UNCHANGED hidx
-         ELSE IF hidx = Len(snap)
-                THEN hpc' = "returned" /\ UNCHANGED hidx
-                ELSE hpc' = "joining" /\ hidx' = hidx + 1
-    /\ act' = L("shut", "-", "H_Join")
+H_Join(s) ==
+    /\ hpc[s] = "joining" /\ delivered[snap[s][hidx[s]]] >= 1
+    /\ IF exc[snap[s][hidx[s]]] # "none"
+         THEN HGo(s, "raised") /\ UNCHANGED hidx
+         ELSE IF hidx[s] = Len(snap[s])
+                THEN HGo(s, "returned") /\ UNCHANGED hidx
+                ELSE UNCHANGED hpc /\ hidx' = [hidx EXCEPT ![s] = @ + 1]
+    /\ act' = L("shut", s, "H_Join")
     /\ UNCHANGED <<mode, flag, lock, futures, spc, wpc, proc, exc, delivered, seen, snap, cpc, late, postret, early, sclosed>>
 
-ShutNext == H_SetFlag \/ H_Lock \/ H_CancelAll \/ H_WaitCancels \/ H_Unlock \/ H_Snapshot \/ H_Join
+ShutNext(s) ==
+    H_SetFlag(s) \/ H_Lock(s) \/ H_CancelAll(s) \/ H_WaitCancels(s) \/ H_Unlock(s) \/ H_Snapshot(s) \/ H_Join(s)
 
 -----------------------------------------------------------------------------
 (* env j                                                                                              *)
 
 Env_Exit(j) ==
-    /\ proc[j] = "running"
+    /\ proc[j] = "running" /\ j \notin NeverExits
     /\ proc' = [proc EXCEPT ![j] = "exited"]
     /\ act' = L("env", j, "Env_Exit")
     /\ UNCHANGED <<mode, flag, lock, futures, spc, wpc, exc, delivered, seen, hpc, snap, hidx, cpc, late, postret, early, sclosed>>
@@ -415,9 +428,9 @@ Env_Exit(j) ==
 Next ==
     \/ \E j \in Jobs : SubNext(j)
     \/ \E j \in Jobs : WrkNext(j)
-    \/ \E j \in Jobs : CanNext(j)
+    \/ \E s \in Shuts, j \in Jobs : CanNext(s, j)
     \/ \E j \in Jobs : Env_Exit(j)
-    \/ ShutNext
+    \/ \E s \in Shuts : ShutNext(s)
 
 Spec == Init /\ [][Next]_vars
 
@@ -425,15 +438,16 @@ Spec == Init /\ [][Next]_vars
 \* (with timeout=None nothing in the code bounds the wait, that is the caller's choice).
 FairSpec ==
     /\ Spec
-    /\ \A j \in Jobs : WF_vars(SubNext(j)) /\ WF_vars(WrkNext(j)) /\ WF_vars(CanNext(j))
-    /\ \A j \in Jobs \ HasTimeout : WF_vars(Env_Exit(j))
-    /\ WF_vars(ShutNext)
+    /\ \A j \in Jobs : WF_vars(SubNext(j)) /\ WF_vars(WrkNext(j))
+    /\ \A s \in Shuts, j \in Jobs : WF_vars(CanNext(s, j))
+    /\ \A j \in Jobs \ (HasTimeout \cup NeverExits) : WF_vars(Env_Exit(j))
+    /\ \A s \in Shuts : WF_vars(ShutNext(s))
 
-ShutDone == hpc \in {"returned", "raised"}
+ShutDone(s) == hpc[s] \in {"returned", "raised"}
 Terminated ==
     /\ \A j \in Jobs : spc[j] \in {"rejected", "got"} /\ wpc[j] \in {"idle", "done"}
     /\ \A x \in Sites \X Jobs : cpc[x] \in {"none", "done"}
-    /\ (mode = "none" /\ hpc = "idle") \/ ShutDone
+    /\ \A s \in Shuts : (mode[s] = "none" /\ hpc[s] = "idle") \/ ShutDone(s)
 
 -----------------------------------------------------------------------------
 (* Properties that hold on every interleaving                                                         *)
@@ -450,7 +464,7 @@ ResultConsistent ==
 ResultEventually == \A j \in Jobs : (wpc[j] = "spawned") ~> (delivered[j] = 1)
 \* waiting on an accepted job always returns (liveness, FairSpec)
 WaitReturns == \A j \in Jobs : (spc[j] = "waiting") ~> (spc[j] = "got")
-ShutdownReturns == (hpc # "idle") ~> ShutDone
+ShutdownReturns == \A s \in Shuts : (hpc[s] # "idle") ~> ShutDone(s)
 Termination == <>[]Terminated
 
 \* a job that ran into its time limit is seen as the TimeoutExpired exception, never as a result tuple;
@@ -470,29 +484,44 @@ RejectAfterFlag ==
                           => spc'[j] \in {"rejecting", "rejected"}]_vars
 FlagStable == [][flag => flag']_vars
 
-\* every job that is ever registered is covered by the shutdown: it has a cancel task (wait=False) or is in
-\* the snapshot of _join() (wait=True) -- nothing is registered behind shutdown's back
+\* every job that is ever registered is covered by every shutdown call: it has a cancel task (wait=False) or is
+\* in the snapshot of _join() (wait=True) -- nothing is registered behind shutdown's back
 CancelCoversRegistered ==
-    (mode = "nowait" /\ hpc \in {"waitcancels", "unlock", "returned"})
-        => \A j \in Range(futures) : cpc[<<"h", j>>] # "none"
+    \A s \in Shuts :
+        (mode[s] = "nowait" /\ hpc[s] \in {"waitcancels", "unlock", "returned"})
+            => \A j \in Range(futures) : cpc[<<s, j>>] # "none"
 SnapshotCoversRegistered ==
-    (mode = "wait" /\ hpc \in {"unlock", "joining", "returned", "raised"}) => snap = futures
+    \A s \in Shuts :
+        (mode[s] = "wait" /\ hpc[s] \in {"unlock", "joining", "returned", "raised"}) => snap[s] = futures
 
 \* cancel() of shutdown closes the pipes only when the process is gone
 ClosedMeansDead == \A j \in Jobs : sclosed[j] => proc[j] \in {"exited", "killed"}
 
 Running(j) == proc[j] = "running"
-ReturnedNoWait == mode = "nowait" /\ hpc = "returned"
+ReturnedNoWait(s) == mode[s] = "nowait" /\ hpc[s] = "returned"
+AnyReturnedNoWait == \E s \in Shuts : ReturnedNoWait(s)
+AnyEarly == \E j \in Jobs : early[j]
 
-\* QuiescentAfterShutdown restricted to what the code achieves: after shutdown(wait=False) returned, a
-\* process can only be (or become) running through the cancel-before-popen race
+\* QuiescentAfterShutdown restricted to what the code achieves: once ANY shutdown(wait=False) call has returned
+\* (its cancel tasks have finished), a process can only be (or become) running through the cancel-before-popen
+\* race -- whatever other shutdown call came before, runs concurrently or is still blocked in _join()
 QuiescentUnlessCbp ==
-    ReturnedNoWait => \A j \in Jobs : (Running(j) \/ wpc[j] = "spawned") => early[j]
+    AnyReturnedNoWait => \A j \in Jobs : (Running(j) \/ wpc[j] = "spawned") => early[j]
 \* ... and only for a job that was registered before shutdown took the lock (it did get its cancel task)
-CbpOnlyRegistered == \A j \in Jobs : early[j] => cpc[<<"h", j>>] = "done"
+CbpOnlyRegistered == \A j \in Jobs : early[j] => \E s \in Shuts : cpc[<<s, j>>] = "done"
 \* shutdown(wait=True) that returns normally has seen every snapshot job delivered
 JoinCoversSnapshot ==
-    (mode = "wait" /\ hpc = "returned") => \A i \in 1..Len(snap) : delivered[snap[i]] = 1 /\ ~Running(snap[i])
+    \A s \in Shuts :
+        (mode[s] = "wait" /\ hpc[s] = "returned")
+            => \A i \in 1..Len(snap[s]) : delivered[snap[s][i]] = 1 /\ ~Running(snap[s][i])
+
+\* Liveness with processes that never exit on their own (NeverExits): a shutdown(wait=False) from any caller
+\* releases everybody -- a shutdown(wait=True) blocked in _join() returns, every waiter gets its result --
+\* unless the cancel-before-popen race let a process slip through (FairSpec; configurations in which some
+\* caller does request shutdown(wait=False))
+ShutdownReturnsUnlessCbp == \A s \in Shuts : (hpc[s] # "idle") ~> (ShutDone(s) \/ AnyEarly)
+WaitReturnsUnlessCbp == \A j \in Jobs : (spc[j] = "waiting") ~> (spc[j] = "got" \/ AnyEarly)
+TerminationUnlessCbp == <>[](Terminated \/ AnyEarly)
 
 -----------------------------------------------------------------------------
 (* The property as stated.  After commit 929919f:                                                      *)
@@ -501,19 +530,25 @@ JoinCoversSnapshot ==
 (*   QuiescentAfterShutdownWait  FAILS, only when _join() raised (join-raises-job-exception)           *)
 (* With PreFix = TRUE all of them fail through submit-shutdown-toctou (negative control).             *)
 
-\* once shutdown(wait=False) has returned no process is or becomes running
-QuiescentAfterShutdown == ReturnedNoWait => \A j \in Jobs : ~Running(j)
-\* after shutdown returned no further job is accepted
+\* once a shutdown(wait=False) has returned no process is or becomes running
+QuiescentAfterShutdown == AnyReturnedNoWait => \A j \in Jobs : ~Running(j)
+\* after a shutdown returned no further job is accepted
 NoAcceptAfterShutdown == \A j \in Jobs : ~postret[j]
 \* shutdown(wait=True) ends only when nothing is running any more ...
-QuiescentAfterShutdownWait == (mode = "wait" /\ ShutDone) => \A j \in Jobs : ~Running(j)
+QuiescentAfterShutdownWait == \A s \in Shuts : (mode[s] = "wait" /\ ShutDone(s)) => \A j \in Jobs : ~Running(j)
 \* ... which the code achieves when it returns normally
-QuiescentAfterReturnedWait == (mode = "wait" /\ hpc = "returned") => \A j \in Jobs : ~Running(j) /\ wpc[j] # "spawned"
-ShutdownWaitDoesNotRaise == hpc # "raised"
+QuiescentAfterReturnedWait ==
+    \A s \in Shuts : (mode[s] = "wait" /\ hpc[s] = "returned") => \A j \in Jobs : ~Running(j) /\ wpc[j] # "spawned"
+ShutdownWaitDoesNotRaise == \A s \in Shuts : hpc[s] # "raised"
 
 \* race witnesses (each must be reachable: checked as expected invariant violations)
-NoToctouWitness == ~(ReturnedNoWait /\ \E j \in Jobs : Running(j) /\ postret[j])
-NoToctouWaitWitness == ~(mode = "wait" /\ hpc = "returned" /\ \E j \in Jobs : Running(j) /\ postret[j])
-NoCancelBeforePopenWitness == ~(ReturnedNoWait /\ \E j \in Jobs : Running(j) /\ early[j])
-NoJoinRaiseWitness == ~(hpc = "raised" /\ \E j \in Jobs : Running(j))
+NoToctouWitness == ~(AnyReturnedNoWait /\ \E j \in Jobs : Running(j) /\ postret[j])
+NoToctouWaitWitness ==
+    ~(\E s \in Shuts : mode[s] = "wait" /\ hpc[s] = "returned" /\ \E j \in Jobs : Running(j) /\ postret[j])
+NoCancelBeforePopenWitness == ~(AnyReturnedNoWait /\ \E j \in Jobs : Running(j) /\ early[j])
+NoJoinRaiseWitness == ~(\E s \in Shuts : hpc[s] = "raised" /\ \E j \in Jobs : Running(j))
+\* two shutdown calls: the pattern halmos produces (early-exit callback / shutdown_all during a join) is reachable
+NoWaitThenNoWaitWitness ==
+    ~(mode["s1"] = "wait" /\ mode["s2"] = "nowait" /\ hpc["s1"] = "returned" /\ hpc["s2"] = "returned"
+      /\ \E j \in Jobs : proc[j] = "killed" /\ j \in NeverExits)
 =============================================================================
